@@ -225,13 +225,18 @@ fn gen_ser_msg(rng: &mut Rng, parsed_ok: bool) -> Item {
 fn gen_ext(rng: &mut Rng) -> Item {
     match rng.below(5) {
         0 | 1 => {
-            let n = rng.small_len(4);
+            let n = if rng.chance(1, 10) { rng.urange(5, 60) } else { rng.small_len(4) };
             let names: Vec<Vec<u8>> = (0..n)
                 .map(|_| {
-                    let l = rng.small_len(60);
+                    let l = if rng.chance(1, 6) { *rng.pick(&[0usize, 1, 255, 256, 257, 1000, 20000]) } else { rng.small_len(60) };
                     rng.bytes(l)
                 })
                 .collect();
+            // the name list carries a u16 length: keep the whole list within it
+            let mut names = names;
+            while names.iter().map(|x| x.len() + 3).sum::<usize>() > 65000 {
+                names.pop();
+            }
             let types: Vec<u8> = (0..n).map(|_| if rng.chance(3, 4) { 0 } else { rng.u8() }).collect();
             Item::new("xsni").list("names", names).bytes("types", &types)
         }
@@ -273,7 +278,7 @@ pub fn generate(rng: &mut Rng, _prop: Prop) -> Scenario {
                 let len = reference_bytes(&m).len();
                 let (mode, k) = sink_plan(rng, len);
                 s.push(m);
-                s.push(Item::new("op").str("what", "msg").int("m", id).int("via", rng.below(3)).int("sink", mode).int("k", k).int("parsed", parsed as u64));
+                s.push(Item::new("op").str("what", "msg").int("m", id).int("via", rng.below(4)).int("sink", mode).int("k", k).int("parsed", parsed as u64));
                 id += 1;
             }
             4 | 5 => {
@@ -282,7 +287,8 @@ pub fn generate(rng: &mut Rng, _prop: Prop) -> Scenario {
                 let mut ids = Vec::new();
                 let mut total = 0usize;
                 let unsupported_inside = rng.chance(1, 8);
-                for i in 0..rng.urange(1, 4) {
+                let nm = if rng.chance(1, 10) { rng.urange(5, 40) } else { rng.urange(1, 4) };
+                for i in 0..nm {
                     let m = if ccs {
                         Item::new("ccs")
                     } else if unsupported_inside && i == 0 {
@@ -296,13 +302,24 @@ pub fn generate(rng: &mut Rng, _prop: Prop) -> Scenario {
                         }
                     };
                     let l = reference_bytes(&m).len();
-                    if total + l > 16000 {
+                    if total + l > 16640 {
                         continue;
                     }
                     total += l;
                     s.push(m.int("_id", id));
                     ids.push(id as u8);
                     id += 1;
+                }
+                if !ccs && !unsupported_inside && rng.chance(1, 6) && total < 16000 {
+                    // fill the record up to the top band: 2^14 - 1 .. 2^14 + 256 payload bytes
+                    let want = *rng.pick(&[16383usize, 16384, 16385, 16500, 16639, 16640]);
+                    if want > total + 4 {
+                        let m = Item::new("finished").bytes("body", &rng.bytes(want - total - 4));
+                        total = want;
+                        s.push(m.int("_id", id));
+                        ids.push(id as u8);
+                        id += 1;
+                    }
                 }
                 let (mode, k) = sink_plan(rng, total + 5);
                 // the record header's own length field is not an input of the serializer: any value
@@ -311,7 +328,7 @@ pub fn generate(rng: &mut Rng, _prop: Prop) -> Scenario {
                 s.push(Item::new("op").str("what", "rec").int("type", if ccs { 20 } else { 22 }).int("ver", gen::version(rng) as u64).bytes("ms", &ids).int("via", rng.below(2)).int("sink", mode).int("k", k).int("hdrlen", hl).int("parsed", rng.chance(1, 3) as u64));
             }
             _ => {
-                let n = rng.urange(1, 3);
+                let n = if rng.chance(1, 10) { rng.urange(4, 30) } else { rng.urange(1, 3) };
                 let mut ids = Vec::new();
                 for _ in 0..n {
                     s.push(gen_ext(rng).int("_id", id));
@@ -584,13 +601,22 @@ fn op_msg(ctx: &mut Ctx, m: &Item, via: u64, mode: u64, k: usize, parsed: bool) 
     };
     let is_sup = supported(&src.kind);
     let reference = reference_bytes(&src);
-    let what = format!("{} via {}", src.kind, ["gen_tls_message", "Serialize::serialize", "specific gen_tls_* function"][via as usize % 3]);
+    // via 3 = Serialize::serialize of the TlsMessageHandshake itself (falls back to 1 for non-handshake values)
+    let hs_direct = via == 3 && matches!(value, TlsMessage::Handshake(_));
+    let via = if via == 3 { 1 } else { via };
+    let what = format!("{} via {}", src.kind, if hs_direct { "TlsMessageHandshake::serialize" } else { ["gen_tls_message", "TlsMessage::serialize", "specific gen_tls_* function"][via as usize % 3] });
     ctx.cell("ser", (kind_index(&src.kind) * 3 + (via % 3) as u32) * 6 + mode.min(5) as u32);
     let (out, accepted) = if via % 3 == 1 {
         // Serialize::serialize writes into its own Vec (no sink seam)
-        let r = ctx.call("TlsMessage::serialize", reference.len(), 0, || match value.serialize() {
-            Ok(v) => SerOut::Ok { pos: v.len() as u64, bytes: v },
-            Err(e) => classify(e),
+        let r = ctx.call("Serialize::serialize", reference.len(), 0, || {
+            let r = match (hs_direct, value) {
+                (true, TlsMessage::Handshake(h)) => h.serialize(),
+                _ => value.serialize(),
+            };
+            match r {
+                Ok(v) => SerOut::Ok { pos: v.len() as u64, bytes: v },
+                Err(e) => classify(e),
+            }
         });
         match r {
             Some(o) => {
@@ -633,7 +659,16 @@ fn kind_index(k: &str) -> u32 {
 fn fault_free_message_oracles(ctx: &mut Ctx, what: &str, src: &Item, bytes: &[u8], pos: u64, reference: &[u8]) {
     ctx.count("oracle/message_roundtrips", 1);
     let _ = pos;
-    if bytes != reference {
+    // SSLv3 has no extension block: an absent one may be emitted as `00 00` (today) or not at all
+    let sslv3_bare = src.kind == "server_hello" && src.u("ver") == 0x0300 && src.ob("ext").is_none() && reference.len() >= 6 && bytes.len() + 2 == reference.len() && {
+        let mut alt = reference[..reference.len() - 2].to_vec();
+        let l = alt.len() - 4;
+        alt[1] = (l >> 16) as u8;
+        alt[2] = (l >> 8) as u8;
+        alt[3] = l as u8;
+        alt == bytes
+    };
+    if bytes != reference && !sslv3_bare {
         let i = bytes.iter().zip(reference.iter()).position(|(a, b)| a != b).unwrap_or(bytes.len().min(reference.len()));
         ctx.violate(Prop::C09, format!("ser/bytes-differ/{}", src.kind), || {
             format!("{}: serializer emitted {} bytes, the reference encoder {} bytes; first difference at offset {} (got {:02x?}, expected {:02x?})", what, bytes.len(), reference.len(), i, bytes.get(i), reference.get(i))
@@ -756,7 +791,8 @@ fn op_rec(ctx: &mut Ctx, scn: &Scenario, op: &Item, mode: u64, k: usize) {
         _ => return,
     };
     let _ = pos;
-    if bytes != reference {
+    let has_sslv3_bare = items.iter().any(|m| m.kind == "server_hello" && m.u("ver") == 0x0300 && m.ob("ext").is_none());
+    if bytes != reference && !has_sslv3_bare {
         let i = bytes.iter().zip(reference.iter()).position(|(a, b)| a != b).unwrap_or(bytes.len().min(reference.len()));
         ctx.violate(Prop::C09, "ser/bytes-differ/record", || format!("{}: emitted {} bytes, reference {} bytes; first difference at offset {} (got {:02x?}, expected {:02x?})", what, bytes.len(), reference.len(), i, bytes.get(i), reference.get(i)));
     }
@@ -781,7 +817,7 @@ fn op_rec(ctx: &mut Ctx, scn: &Scenario, op: &Item, mode: u64, k: usize) {
                         val::canon(&alt) == *g
                     })
                 });
-            if (t, v, l as usize) != (ctype, ver, payload.len()) || !msgs_ok {
+            if (t, v) != (ctype, ver) || (l as usize != payload.len() && !has_sslv3_bare) || l as usize != bytes.len().saturating_sub(5) || !msgs_ok {
                 ctx.violate(Prop::C09, "ser/roundtrip-value/record", || format!("{}: parsed back as type {} version {:#06x} len {} with {} msgs; sent type {} version {:#06x} len {} with {} msgs (or message values differ)", what, t, v, l, got.len(), ctype, ver, payload.len(), want.len()));
             }
             if again.as_deref() != Some(&bytes[..]) {
